@@ -189,6 +189,28 @@ def _tables(spec, data, cmap=None, tmap=None):
 # --------------------------------------------------------------------------------------------------
 
 
+_UNDET: Dict[Tuple[str, str], Optional[str]] = {}
+
+
+def _undetermined(spec, data) -> Optional[str]:
+    """reason why the pipeline's result is not determined by (pipeline, data) -- ties in an ordered window, an order_rows(limit) cutting through
+    equal keys (mid-chain or final), a convert_records keying requirement that the data violates -- else None (same rule as C01 / C07)"""
+    k = (json.dumps(spec, sort_keys=True, default=str), json.dumps(data, sort_keys=True, default=str))
+    if k not in _UNDET:
+        try:
+            pc = C.PrefixCache(spec, data)
+            skip, _ = C.data_preconditions(spec, pc, backends=("pandas",))
+            order_step = C.last_order_step(spec)
+            if skip is None and order_step is not None and order_step.get("limit") is not None:
+                pr = pc.rows(len(spec["steps"]) - 1)
+                if pr[0] == "ok" and not C.limit_cut_is_determined(pr[1], pr[2], order_step["columns"], order_step.get("reverse"), order_step["limit"]):
+                    skip = "limit-cut-through-ties"
+        except Exception:
+            skip = None
+        _UNDET[k] = skip
+    return _UNDET[k]
+
+
 def eval_case(chain, renames: List[Tuple[str, str, str, str]], data_sets, base_cache=None) -> List[Dict[str, Any]]:
     """renames: [(what: 'column'|'table', old, new, pattern)] -> one result per rename"""
     spec = to_pipe_spec(chain)
@@ -220,6 +242,10 @@ def eval_case(chain, renames: List[Tuple[str, str, str, str]], data_sets, base_c
             rops = None
         if rops is not None:
             for di, data in data_sets:
+                und = _undetermined(spec, data)
+                if und is not None:
+                    r["notes"]["skipped:" + und] += 1  # the result itself is not determined on this data (ties at a limit / in a window order): nothing to compare
+                    continue
                 for be in EXEC:
                     if (di, be) not in base:
                         base[(di, be)] = run_backend(be, base_ops, _tables(spec, data))
